@@ -690,6 +690,11 @@ Lemma run_finish_running s :
                           (length (cont_plugins s))) (Some RT_G_fin).
 Proof. unfold run_finish. simpl. intros ->. reflexivity. Qed.
 
+Ltac rs_tac Hrws :=
+  try solve [let x := fresh "x" in let E := fresh "E" in intros x E; inversion E; subst; discriminate];
+  try solve [let t := fresh "t" in let c := fresh "c" in let Hf := fresh "Hf" in
+             intros t c Hf; destruct (Hrws _ _ Hf); auto; discriminate].
+
 Lemma CI_step_run s : LkS s -> FI s -> CI s -> CI (do_step_run s).
 Proof.
   intros HL HF HC. pose proof HF as [HP HS]. unfold do_step_run.
@@ -708,17 +713,12 @@ Proof.
   destruct x; simpl in Hfsm.
   - (* RT_New *)
     destruct (run_arg s) eqn:Era; [|exfalso; apply Hra; auto].
-    apply (CI_notask_step s); auto; fsimpl; ci_side.
-    + intros x E. inversion E; subst. discriminate.
-    + intros t c Hf. destruct (Hrws _ _ Hf). auto.
+    apply (CI_notask_step s); auto; fsimpl; ci_side; rs_tac Hrws.
   - (* RT_Created *)
     simpl. destruct (run_arg s) eqn:Era; [|exfalso; apply Hra; auto].
-    apply (CI_notask_step s); auto; fsimpl; ci_side.
-    + intros x E. inversion E; subst. discriminate.
-    + intros t c Hf. destruct (Hrws _ _ Hf). auto.
+    apply (CI_notask_step s); auto; fsimpl; ci_side; rs_tac Hrws.
   - (* RT_G_start *)
-    apply (CI_notask_step s); auto; fsimpl; ci_side.
-    intros t c Hf. destruct (Hrws _ _ Hf). auto.
+    apply (CI_notask_step s); auto; fsimpl; ci_side; rs_tac Hrws.
   - (* RT_WaitChild *)
     destruct (run_call_pending s) eqn:Epend; auto. destruct (pending_exit s) as [o|] eqn:Epe; auto.
     simpl. destruct (run_arg s) eqn:Era; [|exfalso; apply Hra; auto].
@@ -727,15 +727,13 @@ Proof.
   - (* RT_G_end *)
     rewrite run_finish_running by assumption.
     match goal with |- context [cont_finished ?y ?n] => destruct (cf_trace n y) as (new & Et & _) end.
-    apply (CI_notask_step s); auto; simpl; rewrite ?cf_nls, ?cf_nlc, ?cf_holder, ?cf_lockq, ?cf_tasks, ?cf_fsm, ?cf_sev; simpl; ci_side.
-    + rewrite Et. simpl. apply incl_appr. incl_tac.
-    + intros t c Hf. destruct (Hrws _ _ Hf). discriminate.
+    apply (CI_notask_step s); auto; simpl; rewrite ?cf_nls, ?cf_nlc, ?cf_holder, ?cf_lockq, ?cf_tasks, ?cf_fsm, ?cf_sev; simpl; ci_side;
+      rs_tac Hrws.
+    rewrite Et. simpl. apply incl_appr. incl_tac.
   - (* RT_G_fin *)
-    apply (CI_notask_step s); auto; fsimpl; ci_side.
-    intros t c Hf. destruct (Hrws _ _ Hf). discriminate.
+    apply (CI_notask_step s); auto; fsimpl; ci_side; rs_tac Hrws.
   - (* RT_G_cs *)
-    apply (CI_notask_step s); auto; fsimpl; ci_side.
-    intros t c Hf. destruct (Hrws _ _ Hf). discriminate.
+    apply (CI_notask_step s); auto; fsimpl; ci_side; rs_tac Hrws.
 Qed.
 
 Lemma CI_child_exit s o : LkS s -> CI s -> CI (do_child_exit s o).
